@@ -23,12 +23,16 @@ type TypeLayouts struct {
 	EncAll   []*PathLayout // all encode success paths with a body
 	EncNil   []*PathLayout // body-nil arms (outside C01's domain)
 	DecMain  *PathLayout
+	decMainZero bool
 	Problems []string
 }
 
 func dynFill(dst, src *FieldLayout) {
 	if dst.Kind == "dyn" && src.Kind == "dyn" && dst.Table == "" {
 		dst.Table, dst.Key = src.Table, src.Key
+	}
+	if dst.Kind == "list" && dst.ZeroList && dst.Elem == nil && src.Kind == "list" {
+		dst.Elem = src.Elem // zero elements read: any element layout
 	}
 }
 
@@ -47,6 +51,8 @@ func sameShape(a, b *Layout, wire bool) (int, string) {
 				fb.Table, fb.Key = fa.Table, fa.Key
 			}
 		}
+		dynFill(&fa, &fb)
+		dynFill(&fb, &fa)
 		ca, cb := fa.Canon(), fb.Canon()
 		if wire {
 			ca, cb = fa.WireCanon(), fb.WireCanon()
@@ -85,8 +91,17 @@ func (a *Analysis) Layouts(ct *CodecType) *TypeLayouts {
 			}
 		}
 	}
-	if len(r.Dec) > 0 {
-		tl.DecMain = r.Dec[0]
+	// the reference decode path reads elements of every list
+	for _, pl := range r.Dec {
+		zero := false
+		for _, f := range pl.Layout.Fields {
+			if f.ZeroList {
+				zero = true
+			}
+		}
+		if tl.DecMain == nil || (!zero && tl.decMainZero) {
+			tl.DecMain, tl.decMainZero = pl, zero
+		}
 	}
 	return tl
 }
@@ -354,6 +369,9 @@ func (a *Analysis) CheckC02(rep *Report) {
 			for i := 0; i < min(len(l.Fields), len(gold)); i++ {
 				f := *l.Fields[i]
 				dynFill(&f, gold[i])
+				if f.Kind == "dyn" {
+					f.Table = a.pinnedTable(g, f.Table) // a table is identified by what it assigns, not by its variable's name
+				}
 				got, want := f.Canon(), gold[i].Canon()
 				if wire {
 					got, want = f.WireCanon(), gold[i].WireCanon()
